@@ -228,8 +228,8 @@ def main():
     if not okt:
         # each generated table serves its own properties; a table that could not be regenerated is stale
         m = re.search(r'translate\.py: FAILED (.*)', logt)
-        bad_tables = m.group(1).split() if m else ['AbiTables', 'PanicSites', 'Consts', 'LockSites']
-        serves = {'AbiTables': ('C15', 'C18'), 'PanicSites': ('C13',), 'Consts': ('C20', 'C17'), 'LockSites': ('C12',)}
+        bad_tables = m.group(1).split() if m else ['AbiTables', 'PanicSites', 'Consts', 'LockSites', 'WireFormats']
+        serves = {'AbiTables': ('C15', 'C18'), 'PanicSites': ('C13',), 'Consts': ('C20', 'C17'), 'LockSites': ('C12',), 'WireFormats': ('C13',)}
         if any(pid in serves[t] for t in bad_tables):
             proof_problems.append('translator failed: ' + logt[-1200:])
     hyg = hygiene()
